@@ -53,8 +53,9 @@ Print Assumptions faults_classified.
 
 (* a connect failure towards the proxy is still a connection error *)
 Theorem proxy_connect_failure_classified :
-  CAT Forwarding false "NewConnectionError" = KConnect /\ CAT Forwarding false "ConnectTimeoutError" = KConnect.
-Proof. vm_compute. split; reflexivity. Qed.
+  CAT Forwarding false "NewConnectionError" = KConnect /\ CAT Forwarding false "ConnectTimeoutError" = KConnect /\
+  CAT Tunnelling false "NewConnectionError" = KConnect /\ CAT Tunnelling false "ConnectTimeoutError" = KConnect.
+Proof. vm_compute. repeat split; reflexivity. Qed.
 Print Assumptions proxy_connect_failure_classified.
 
 (* ---- the loop: for every lattice, tuple set, script, mode, method and Retry ---- *)
@@ -108,3 +109,20 @@ Proof.
   split; vm_compute; reflexivity.
 Qed.
 Print Assumptions nonidempotent_not_resent_proxy_refuted.
+
+(* KNOWN FINDING C04-F2: the same through a CONNECT tunnel *)
+Theorem nonidempotent_not_resent_tunnel_refuted :
+  CAT Tunnelling false "ConnectionResetError" = KOther /\
+  exists r script,
+    method_retryable r (S!"POST") = false /\
+    t_wire (run_loop LAT (getl Gen_Urlopen.urlopen_to_sslerror) (getl Gen_Urlopen.urlopen_to_proxyerror)
+                     (getl Gen_Urlopen.urlopen_to_protocolerror) (getl Gen_Urlopen.retry_connection_error)
+                     (getl Gen_Urlopen.retry_read_error) (getl Gen_Retry.retry_after_status_codes)
+                     script Tunnelling (S!"POST") r)
+    = [mkW true true; mkW true true].
+Proof.
+  split; [vm_compute; reflexivity|].
+  exists lib_default, [mkA COk SOk RReset; mkA COk SOk (RResp 200 None true)].
+  split; vm_compute; reflexivity.
+Qed.
+Print Assumptions nonidempotent_not_resent_tunnel_refuted.
